@@ -10,7 +10,8 @@ From Coq Require Import List NArith ZArith Bool.
 Import ListNotations.
 
 Definition str := list N.
-Definition tok := N.   (* opaque payload copied through by the reader (list rules, entity refs) *)
+Definition tok := N.   (* payload copied through by the reader (list rules, ext, entity refs, object / oneof rules): the exact
+                          bytes of the message as one natural number (harness/descgen Tok: type name + deterministic encoding) *)
 
 Inductive kind :=
 | KBool | KEnum | KInt32 | KSint32 | KUint32 | KInt64 | KSint64 | KUint64
